@@ -77,7 +77,22 @@ def check(run):
         and dotted(pinfo[0].value.args[0]) == "requestant.path"
     run.ob("C14.R1", "%s:PATH_INFO-requoted" % env.fq, ok, run.site(env, pinfo[0]) if pinfo else run.site(env),
            "" if ok else "PATH_INFO must be the re-quoted requestant.path")
-    run.floor("C14.R1", 3)
+    # the inverse table holds for the default safe set only: unquote() undoes every %XX, so the writer must escape '%' itself
+    qcalls = [(build, n) for n in walk_local(build.node) if isinstance(n, ast.Call) and tail(dotted(n.func)) in INVERSE] + \
+             [(env, n) for n in walk_local(env.node) if isinstance(n, ast.Call) and tail(dotted(n.func)) in INVERSE] + \
+             [(g, n) for g in (ix.func(HT, "updateQargsQuery"),) for n in walk_local(g.node) if isinstance(n, ast.Call) and tail(dotted(n.func)) in INVERSE]
+    for g, n in qcalls:
+        safe = next((k.value for k in n.keywords if k.arg == "safe"), n.args[1] if len(n.args) > 1 else None)
+        if safe is not None and not isinstance(safe, ast.Constant):
+            run.inconclusive_at("C14.R1", run.site(g, n), "`%s`: safe= is not a literal" % unparse(n))
+            continue
+        sv = safe.value if safe is not None else "/"
+        sv = sv.decode("latin-1") if isinstance(sv, bytes) else sv
+        ok = "%" not in sv
+        run.ob("C14.R1", "%s:%s-escapes-percent" % (g.fq, tail(dotted(n.func))), ok, run.site(g, n),
+               "" if ok else "`%s` leaves '%%' unescaped (safe=%r) while the reader unquotes every %%XX: a literal '%%41' in the component is "
+               "received as 'A'" % (unparse(n), sv))
+    run.floor("C14.R1", 6)
 
     # R2 query components
     uq = ix.func(HT, "updateQargsQuery")
@@ -196,6 +211,8 @@ def check(run):
 
 
 MUTANTS = [
+    Mutant("path-quote-keeps-percent", HC, "Requester.build", "        path = quote(path)\n", "        path = quote(path, safe=\"/%\")\n", {"C14.R1"}),
+    Mutant("silent-path-quote-explicit-default-safe", HC, "Requester.build", "        path = quote(path)\n", "        path = quote(path, safe=\"/\")\n", silent=True),
     Mutant("drop-path-quote", HC, "Requester.build", "        path = quote(path)\n", "", {"C14.R1"}, canary=True),
     Mutant("reader-unquote-plus-path", HS, "Requestant.parseHead", "self.path = unquote(pathSplits.path)", "self.path = unquote_plus(pathSplits.path)", {"C14.R1"}, canary=True),
     Mutant("content-length-plus-one", HC, "Requester.build", "str(len(body))", "str(len(body) + 1)", {"C14.R4"}, canary=True),
